@@ -29,6 +29,7 @@ import (
 	"unicode/utf8"
 
 	"github.com/whoisnian/glb/logger"
+	"verif/harness/internal/sites"
 	"verif/harness/internal/vio"
 )
 
@@ -270,6 +271,7 @@ func runValues(out string) {
 			v    any
 		}{"timeZ", t0.In(time.FixedZone("", off*60))})
 	}
+	runCallSites(w)
 	for _, addSource := range []bool{false, true} {
 		for _, level := range []slog.Level{logger.LevelDebug, logger.LevelInfo, logger.LevelWarn, logger.LevelError, logger.LevelFatal} {
 			for _, k := range kinds {
@@ -327,6 +329,24 @@ func runValues(out string) {
 					w.Put(map[string]any{"mode": "values", "kind": k.name, "where": where, "source": addSource, "level": levelName(level), "toks": toks, "oneline": ok, "roundtrip": rt})
 				}
 			}
+		}
+	}
+}
+
+// runCallSites logs through every output method of Logger from call sites with known file and line (package sites)
+func runCallSites(w *vio.Writer) {
+	for _, derived := range []bool{false, true} {
+		for _, st := range sites.Sites {
+			c := &capture{}
+			l := logger.New(logger.NewJsonHandler(c, logger.NewOptions(logger.LevelDebug, false, true)))
+			if derived {
+				l = l.With("w", 1).WithGroup("g")
+			}
+			st.Call(l)
+			line, ok := oneLine(c)
+			toks, _ := lex(line)
+			maskTime(toks)
+			w.Put(map[string]any{"mode": "callsite", "method": st.Method, "file": st.File, "line": strconv.Itoa(st.Line), "level": st.Level, "derived": derived, "toks": toks, "oneline": ok})
 		}
 	}
 }
